@@ -175,7 +175,9 @@ func c05Run(c *core.Ctx, i int) *core.Result {
 			res.Evals++
 			res.Ev([]string{"injected_err", "injected_panic"}[kind], 1)
 			in := fmt.Sprintf("k=%d kind=%s\n%s", k, tag, text)
-			viol := func(key, detail string) { res.Violate(tag+":"+key, fmt.Sprintf("k=%d of %d, %s: %s", k, n, tag, detail), in) }
+			viol := func(key, detail string) {
+				res.Violate(tag+":"+key, fmt.Sprintf("k=%d of %d, %s: %s", k, n, tag, detail), in)
+			}
 			if rerr != nil && rerr.Kind == "injected" {
 				res.Ev("propagated_to_top", 1)
 				switch {
